@@ -441,7 +441,9 @@ def updateCore (s : State) (a : UpdateArgs) : Option (State × Time) :=
     let prevSpawn := x.spawn
     -- initialization parameters
     let r3 : Option (State × Consumer) := match a.init with
-      | none => some (s, x)
+      | none =>
+        -- the stored initial height must match the (possibly new) chain id (fix for F3)
+        if x.initRev != x.chainRev then none else some (s, x)
       | some ini =>
         if !isPrelaunched x.phase then none
         else
